@@ -626,3 +626,56 @@ def scn_sha(scn):
     if "worldkey" in scn:
         return sha({k: v for k, v in scn.items() if k not in ("world", "id", "gen")})
     return sha({k: v for k, v in scn.items() if k not in ("id", "gen")})
+
+
+def validate_traces(ctx, module, recs, shards=8):
+    """Trace validation of recorded runs by a Trace_* module (TRACEOK line per accepted run, runs consumed in order)."""
+    def one(i):
+        part = recs[i::shards]
+        if not part:
+            return [], 0, None
+        fn = os.path.join(ctx.scratch, "%s.%d.ndjson" % (module, i))
+        with open(fn, "w") as f:
+            for rec in part:
+                f.write(json.dumps(rec) + "\n")
+        tr = run_tlc(module, workers=1, env={"TRACES": fn}, tags=("TRACEOK",), xmx="3g", deadlock=False)
+        if tr.rc not in (0,) or tr.violated:
+            return tr.lines["TRACEOK"], tr.distinct, "TLC: %s" % (tr.violated or tr.out[-300:])
+        return tr.lines["TRACEOK"], tr.distinct, None
+    ok = 0
+    states = 0
+    drift = []
+    for i, (oks, st, err) in enumerate(pmap(one, range(shards), workers=shards)):
+        part = recs[i::shards]
+        ok += len(oks)
+        states += st
+        if err or len(oks) < len(part):
+            first = part[len(oks)] if len(oks) < len(part) else part[-1]
+            drift.append("trace rejected after %d accepted runs in shard %d: argv=%s %s" % (len(oks), i, json.dumps(first["argv"])[:160], err or ""))
+    # binding guard: the longest recorded run with one event removed / one logged field flipped must be rejected
+    guard = None
+    if recs:
+        import copy
+        longest = max(recs, key=lambda x: len(x["events"]))
+        idx = [i for i, e in enumerate(longest["events"]) if e.get("ev") == "entry"]
+        bad = []
+        if idx:
+            a = copy.deepcopy(longest)
+            del a["events"][idx[len(idx) // 2]]
+            b = copy.deepcopy(longest)
+            e = b["events"][idx[len(idx) // 2]]
+            e["reported"] = not e["reported"]
+            bad = [a, b]
+        accepted = 0
+        for j, rec in enumerate(bad):
+            fn = os.path.join(ctx.scratch, "%s.guard%d.ndjson" % (module, j))
+            with open(fn, "w") as f:
+                f.write(json.dumps(dict(rec, id=1)) + "\n")
+            tr = run_tlc(module, workers=1, env={"TRACES": fn}, tags=("TRACEOK",), xmx="2g", deadlock=False)
+            if tr.lines["TRACEOK"] and not tr.violated:
+                accepted += 1
+        guard = {"corrupted_traces": len(bad), "accepted": accepted}
+        if accepted:
+            drift.append("binding guard: %d of %d corrupted traces were accepted by %s" % (accepted, len(bad), module))
+    return {"kind": "trace-validation", "module": module, "states": states, "validated": ok, "rejected": len(recs) - ok,
+            "events": sum(len(x["events"]) for x in recs), "drift": drift, "binding_guard": guard}
